@@ -40,7 +40,9 @@ def quoteByte (safe : Bytes) (b : UInt8) : Text :=
 def safeBytes (safe : String) : Bytes := (utf8 safe.toList).filter (· < 128)
 
 /-- `quote(s, safe)`: UTF-8 encode, keep always-safe and `safe` bytes, `%XX` the rest -/
-def quote (safe : String) (s : Text) : Text := (utf8 s).flatMap (quoteByte (safeBytes safe))
+def quoteBytes (safe : Bytes) (bs : Bytes) : Text := bs.flatMap (quoteByte safe)
+
+def quote (safe : String) (s : Text) : Text := quoteBytes (safeBytes safe) (utf8 s)
 
 /-- RFC 3986 percent-decoding of one path segment (what the server does with it).  `none` for a
     malformed escape or a non-ASCII character. -/
@@ -127,7 +129,11 @@ def splitOn (sep : Char) : Text → List Text
       | [] => [[c]]
       | s :: ss => (c :: s) :: ss
 
-def joinWith (sep : Char) (segs : List Text) : Text := List.intercalate [sep] segs
+/-- `sep.join(segs)` -/
+def joinWith (sep : Char) : List Text → Text
+  | [] => []
+  | [a] => a
+  | a :: rest => a ++ sep :: joinWith sep rest
 
 def filterButLast : List Text → List Text
   | [] => []
@@ -150,9 +156,12 @@ def isDot (seg : Text) : Bool := seg = ['.'] || seg = ['.', '.']
 /-- the path of `urljoin(base, rel)` for a base with a network location whose path is `bpath`, and
     a relative reference `rel` that is a pure relative path (no scheme, `//`, `?`, `#`, `;`, and
     not starting with `/`) -/
-def urljoinPath (bpath rel : Text) : Text :=
+def baseParts (bpath : Text) : List Text :=
   let bp := splitOn '/' bpath
-  let bp := if bp.getLast? = some [] then bp else bp.dropLast
+  if bp.getLast? = some [] then bp else bp.dropLast
+
+def urljoinPath (bpath rel : Text) : Text :=
+  let bp := baseParts bpath
   let segs := filterMiddle (bp ++ splitOn '/' rel)
   let res := segs.foldl dotStep []
   let res := if (segs.getLast?.map isDot).getD false then res ++ [[]] else res
